@@ -147,3 +147,113 @@ def resolution_cases(model, payload):
         for k in [k for k in sys.modules if k == "acc" or k.startswith("acc.") or k == "out" or k.startswith("out.")]:
             sys.modules.pop(k, None)
         shutil.rmtree(d, ignore_errors=True)
+
+
+def spec_top(parts, mod, gctx, tracked_type):
+    """the uncached answer of retrieve_object (the contract's `definition`), over real reflection"""
+    from dds._retrieve_objects import _mod_path, function_path
+    from dds.structures_utils import CanonicalPathUtils as CPU
+
+    f, tail = parts[0], parts[1:]
+    if f in mod.__dict__:
+        return spec(parts, mod, gctx, tracked_type)
+    try:
+        loaded = importlib.import_module(f)
+    except ModuleNotFoundError:
+        loaded = None
+    if loaded is not None:
+        return spec(tail, loaded, gctx, tracked_type)
+    if CPU.head(_mod_path(mod)) not in ("__main__", "__global__"):
+        return None
+    if f not in gctx.start_globals:
+        return None
+    g = gctx.start_globals[f]
+    if isinstance(g, types.ModuleType) and tail:
+        return spec_top(tail, g, gctx, tracked_type)
+    if isinstance(g, types.ModuleType):
+        gp = _mod_path(g)
+    elif isinstance(g, types.FunctionType):
+        gp = function_path(g)
+    else:
+        gp = CPU.from_list(["__global__"] + list(parts))
+    if gctx.is_authorized_path(gp) and (tracked_type(g) is True or isinstance(g, (types.FunctionType, types.ModuleType, pathlib.PurePosixPath, str))):
+        return ("auth", g, str(gp))
+    return ("ext", str(gp))
+
+
+def retrieve_cases(model, payload):
+    """ObjectRetrieval.retrieve_object (cache, import fall-back, start globals) against the uncached specification: every
+    (module, local path) pair resolved (a) with a fresh context each and (b) with ONE context for all pairs, in two orders --
+    the shared cache must not change any answer.  Modules: the graph of resolution_cases plus a module named __main__ whose
+    names live in the start globals (accepted and non-accepted functions, a module, values)."""
+    from collections import OrderedDict
+    from dds._retrieve_objects import ObjectRetrieval, _is_authorized_type
+    from dds._eval_ctx import EvalMainContext, AuthorizedObject, ExternalObject
+    from dds.structures import DDSException, LocalDepPath
+
+    d = tempfile.mkdtemp(prefix="dds_h_retrieve_")
+    for rel, src in FILES.items():
+        os.makedirs(os.path.dirname(os.path.join(d, rel)), exist_ok=True)
+        open(os.path.join(d, rel), "w").write(src.lstrip("\n"))
+    sys.path.insert(0, d)
+    try:
+        mods = [importlib.import_module(x) for x in ("acc.m1", "acc.sub.m2", "out.n1")]
+        main = types.ModuleType("__main__")
+        main.__dict__["local_name"] = 3
+        sg = {"helper": mods[0].f, "foreign": mods[2].own, "accmod": mods[0], "outmod": mods[2], "val": 3, "txt": "s", "tags": {1, 2}}
+
+        def mk():
+            return EvalMainContext(None, whitelisted_packages={"acc", "__main__", "__global__"}, start_globals=dict(sg), resolved_references=OrderedDict())
+
+        ref = mk()
+
+        def tracked_type(o):
+            try:
+                return _is_authorized_type(type(o), ref)
+            except DDSException:
+                return "TYPE_ERROR"
+
+        names = sorted({k for m in mods for k in m.__dict__ if not k.startswith("__")} | set(sg) | {"acc", "out", "missing_everywhere", "local_name"})
+        paths = [[a] for a in names] + [[a, b] for a in ("acc", "out", "accmod", "outmod", "m1", "accm", "helper") for b in ("m1", "n1", "f", "own", "K", "N", "sub", "missing")] + [["acc", "sub", "m2"], ["acc", "m1", "f"], ["out", "n1", "shipped"], ["accmod", "K", "meth"], ["outmod", "accm", "f"]]
+        cases = [(m, p_) for m in mods + [main] for p_ in paths]
+
+        def show(x):
+            return (x[0], getattr(x[1], "__name__", repr(x[1])[:30]), x[2]) if isinstance(x, tuple) and x[0] == "auth" else x
+
+        def run(gctx, mod, parts):
+            try:
+                got = ObjectRetrieval.retrieve_object(LocalDepPath(pathlib.PurePosixPath("/".join(parts))), mod, gctx)
+            except DDSException as e:
+                return e.error_code.name if getattr(e, "error_code", None) is not None else "DDSException"
+            except BaseException as e:
+                return "%s: %s" % (type(e).__name__, str(e)[:80])
+            if isinstance(got, AuthorizedObject):
+                return ("auth", got.object_val, str(got.resolved_path))
+            if isinstance(got, ExternalObject):
+                return ("ext", str(got.resolved_path))
+            return got
+
+        def same(a_, b_):
+            if isinstance(a_, tuple) and isinstance(b_, tuple) and a_[0] == b_[0] == "auth":
+                return a_[1] is b_[1] and a_[2] == b_[2]
+            return a_ == b_
+
+        n = 0
+        for label, order in (("a fresh context per call", None), ("one context for all calls", cases), ("one context for all calls, reverse order", cases[::-1])):
+            shared = mk() if order is not None else None
+            for mod, parts in (order or cases):
+                n += 1
+                want = spec_top(list(parts), mod, ref, tracked_type)
+                if isinstance(want, tuple) and want[0] == "auth" and tracked_type(want[1]) == "TYPE_ERROR":
+                    want = "AUTHORIZED_TYPE_NOT_UNDERSTOOD"
+                got = run(shared if shared is not None else mk(), mod, parts)
+                if not same(got, want):
+                    return {"reproduced": True, "detail": "packages `acc`, `__main__` accepted, `out` not; %s: retrieve_object(%s) from module %s gives %r, the uncached specification gives %r" % (label, ".".join(parts), mod.__name__, show(got), show(want)),
+                            "inputs": {"local_path": list(parts), "context_module": mod.__name__, "mode": label}}
+        return {"reproduced": False, "detail": "%d calls (fresh context / shared context in two orders) answer as the uncached specification" % n}
+    finally:
+        sys.path.remove(d)
+        for k in [k for k in sys.modules if k == "acc" or k.startswith("acc.") or k == "out" or k.startswith("out.")]:
+            sys.modules.pop(k, None)
+        shutil.rmtree(d, ignore_errors=True)
+
